@@ -536,3 +536,150 @@ Proof.
   intros H. destruct (from_rdtypes_exact ts H) as (ws & E & W & T). exists ws.
   destruct (type_set_spec ts H) as (S & M). rewrite T. auto.
 Qed.
+
+(* ------------------------------------------------------------------ the encoding is unique *)
+(* an octet is determined by its set bits *)
+Definition octet_inj_fact (n m : nat) : bool :=
+  if forallb (fun j => Bool.eqb (bit_set (Z.of_nat n) j) (bit_set (Z.of_nat m) j)) (seq 0 8) then Nat.eqb n m else true.
+Lemma octet_inj_all : forallb (fun n => forallb (fun m => octet_inj_fact n m) (seq 0 256)) (seq 0 256) = true.
+Proof. vm_compute. reflexivity. Qed.
+
+Lemma octet_inj o1 o2 :
+  0 <= o1 < 256 -> 0 <= o2 < 256 -> (forall j, (j < 8)%nat -> bit_set o1 j = bit_set o2 j) -> o1 = o2.
+Proof.
+  intros H1 H2 Hb. pose proof octet_inj_all as H. rewrite forallb_forall in H.
+  specialize (H (Z.to_nat o1)). rewrite in_seq in H. specialize (H ltac:(lia)).
+  rewrite forallb_forall in H. specialize (H (Z.to_nat o2)). rewrite in_seq in H. specialize (H ltac:(lia)).
+  unfold octet_inj_fact in H. rewrite !Z2Nat.id in H by lia.
+  replace (forallb (fun j => Bool.eqb (bit_set o1 j) (bit_set o2 j)) (seq 0 8)) with true in H.
+  - apply Nat.eqb_eq in H. lia.
+  - symmetry. apply forallb_forall. intros j Hj. apply in_seq in Hj. rewrite Hb by lia. apply eqb_reflx.
+Qed.
+
+Lemma octet_types_inj w i o1 o2 :
+  0 <= o1 < 256 -> 0 <= o2 < 256 -> octet_types w i o1 = octet_types w i o2 -> o1 = o2.
+Proof.
+  intros H1 H2 E. apply octet_inj; auto. intros j Hj.
+  assert (G : forall o, bit_set o j = true <-> In (w * 256 + Z.of_nat i * 8 + Z.of_nat j) (octet_types w i o)).
+  { intros o. rewrite octet_types_in. split.
+    - intros Hb. exists j. auto.
+    - intros (j' & Hj' & Hb & Eq). assert (j' = j) by lia. now subst. }
+  destruct (bit_set o1 j) eqn:B1; destruct (bit_set o2 j) eqn:B2; auto.
+  - apply G in B1. rewrite E in B1. apply G in B1. congruence.
+  - apply G in B2. rewrite <- E in B2. apply G in B2. congruence.
+Qed.
+
+(* a nonzero octet has a bit set *)
+Lemma octet_nonzero_types w i o : 0 <= o < 256 -> o <> 0 -> octet_types w i o <> [].
+Proof.
+  intros Ho Hn E. apply Hn. apply (octet_inj o 0); [exact Ho|lia|].
+  intros j Hj. rewrite bit_set_zero. destruct (bit_set o j) eqn:B; [|reflexivity]. exfalso.
+  assert (In (w * 256 + Z.of_nat i * 8 + Z.of_nat j) (octet_types w i o)) by (apply octet_types_in; eauto).
+  rewrite E in H. destruct H.
+Qed.
+
+(* two concatenations split at the same bound are equal part by part *)
+Lemma app_split_bound (l1 l2 m1 m2 : list Z) B :
+  all_lt l1 B -> all_ge l2 B -> all_lt m1 B -> all_ge m2 B -> l1 ++ l2 = m1 ++ m2 -> l1 = m1 /\ l2 = m2.
+Proof.
+  revert m1. induction l1 as [|x l1 IH]; intros m1 L1 G2 M1 N2 E.
+  - destruct m1 as [|y m1]; [auto|]. cbn in E. destruct l2 as [|z l2]; [discriminate|].
+    inversion E; subst. destruct G2, M1. lia.
+  - destruct m1 as [|y m1].
+    + cbn in E. destruct m2 as [|z m2]; [discriminate|]. inversion E; subst. destruct L1, N2. lia.
+    + cbn in E. inversion E; subst. destruct L1 as [_ L1], M1 as [_ M1].
+      destruct (IH m1 L1 G2 M1 N2 H1) as [-> ->]. auto.
+Qed.
+
+Lemma block_types_inj w : forall bm1 bm2 i,
+  Forall (fun o => 0 <= o < 256) bm1 -> Forall (fun o => 0 <= o < 256) bm2 ->
+  last bm1 0 <> 0 \/ bm1 = [] -> last bm2 0 <> 0 \/ bm2 = [] ->
+  block_types w i bm1 = block_types w i bm2 -> bm1 = bm2.
+Proof.
+  induction bm1 as [|o1 r1 IH]; intros bm2 i F1 F2 L1 L2 E.
+  - destruct bm2 as [|o2 r2]; [reflexivity|]. exfalso. cbn [block_types] in E.
+    (* the last octet of bm2 is nonzero, so bm2 decodes to something *)
+    assert (G : forall (bm : bytes) k, Forall (fun o => 0 <= o < 256) bm -> bm <> [] -> last bm 0 <> 0 -> block_types w k bm <> []).
+    { induction bm as [|o r IHb]; intros k F N L; [congruence|]. cbn [block_types].
+      inversion F as [|? ? Fo Fr]; subst. destruct r as [|o' r'].
+      - cbn in L. cbn [block_types]. rewrite app_nil_r. now apply octet_nonzero_types.
+      - intros Eq. apply app_eq_nil in Eq as [_ Eq]. revert Eq. apply IHb; [exact Fr|discriminate|exact L]. }
+    destruct L2 as [L2|L2]; [|discriminate]. symmetry in E. revert E. apply (G (o2 :: r2) i); [exact F2|discriminate|exact L2].
+  - destruct bm2 as [|o2 r2].
+    + exfalso. destruct L1 as [L1|L1]; [|discriminate].
+      assert (G : forall (bm : bytes) k, Forall (fun o => 0 <= o < 256) bm -> bm <> [] -> last bm 0 <> 0 -> block_types w k bm <> []).
+      { induction bm as [|o r IHb]; intros k F N L; [congruence|]. cbn [block_types].
+        inversion F as [|? ? Fo Fr]; subst. destruct r as [|o' r'].
+        - cbn in L. cbn [block_types]. rewrite app_nil_r. now apply octet_nonzero_types.
+        - intros Eq. apply app_eq_nil in Eq as [_ Eq]. revert Eq. apply IHb; [exact Fr|discriminate|exact L]. }
+      revert E. apply (G (o1 :: r1) i); [exact F1|discriminate|exact L1].
+    + cbn [block_types] in E. inversion F1 as [|? ? Fo1 Fr1]; subst. inversion F2 as [|? ? Fo2 Fr2]; subst.
+      destruct (octet_types_order w i o1) as (_ & _ & Lo1). destruct (octet_types_order w i o2) as (_ & _ & Lo2).
+      destruct (block_types_order r1 w (S i)) as (_ & Gr1 & _). destruct (block_types_order r2 w (S i)) as (_ & Gr2 & _).
+      cbv zeta in *.
+      destruct (app_split_bound _ _ _ _ (w * 256 + Z.of_nat i * 8 + 8) Lo1
+                  ltac:(eapply all_ge_mono; [|exact Gr1]; lia) Lo2
+                  ltac:(eapply all_ge_mono; [|exact Gr2]; lia) E) as [Eo Er].
+      apply octet_types_inj in Eo; auto. subst o2. f_equal.
+      apply (IH r2 (S i)); auto.
+      * destruct r1 as [|x r1']; [now right|left]. destruct L1 as [L1|L1]; [exact L1|discriminate].
+      * destruct r2 as [|x r2']; [now right|left]. destruct L2 as [L2|L2]; [exact L2|discriminate].
+Qed.
+
+(* the first window of a well-formed encoding holds at least one type, all within the window *)
+Lemma block_wf_types w bm : block_wf (w, bm) ->
+  block_types w 0 bm <> [] /\ all_ge (block_types w 0 bm) (w * 256) /\ all_lt (block_types w 0 bm) (w * 256 + 256).
+Proof.
+  intros ((W0 & W1) & (L0 & L1) & F & Ln). cbn [fst snd] in *.
+  destruct (block_types_order bm w 0) as (_ & G & L). cbv zeta in *. cbn [Z.of_nat] in *.
+  split; [|split].
+  - intros E. assert (bm = []) as ->; [|cbn in L0; lia].
+    apply (block_types_inj w bm [] 0%nat); auto.
+  - eapply all_ge_mono; [|exact G]. lia.
+  - eapply all_lt_mono; [|exact L]. lia.
+Qed.
+
+Theorem bitmap_encoding_unique : forall a b,
+  bitmap_wf a -> bitmap_wf b -> bitmap_types a = bitmap_types b -> a = b.
+Proof.
+  assert (G : forall a b la lb, windows_increasing la a -> Forall block_wf a -> windows_increasing lb b -> Forall block_wf b ->
+              bitmap_types a = bitmap_types b -> a = b).
+  { induction a as [|[w1 bm1] a IH]; intros b la lb Ia Fa Ib Fb E.
+    - destruct b as [|[w2 bm2] b]; [reflexivity|]. exfalso.
+      inversion Fb as [|? ? Fb1 _]; subst. destruct (block_wf_types _ _ Fb1) as (N & _ & _).
+      unfold bitmap_types in E. cbn [flat_map fst snd] in E. symmetry in E. apply app_eq_nil in E as [E _]. contradiction.
+    - destruct b as [|[w2 bm2] b].
+      + exfalso. inversion Fa as [|? ? Fa1 _]; subst. destruct (block_wf_types _ _ Fa1) as (N & _ & _).
+        unfold bitmap_types in E. cbn [flat_map fst snd] in E. apply app_eq_nil in E as [E _]. contradiction.
+      + destruct Ia as [Ia1 Ia]. destruct Ib as [Ib1 Ib].
+        inversion Fa as [|? ? Fa1 Fa']; subst. inversion Fb as [|? ? Fb1 Fb']; subst.
+        destruct (block_wf_types _ _ Fa1) as (Na & Ga & La). destruct (block_wf_types _ _ Fb1) as (Nb & Gb & Lb).
+        unfold bitmap_types in E. cbn [flat_map fst snd] in E. fold (bitmap_types a) in E. fold (bitmap_types b) in E.
+        assert (Ra : all_ge (bitmap_types a) ((w1 + 1) * 256)).
+        { apply (bitmap_types_order a w1 Ia). eapply Forall_impl; [|exact Fa']. intros wb (_ & (_ & L) & _). exact L. }
+        assert (Rb : all_ge (bitmap_types b) ((w2 + 1) * 256)).
+        { apply (bitmap_types_order b w2 Ib). eapply Forall_impl; [|exact Fb']. intros wb (_ & (_ & L) & _). exact L. }
+        (* the first element decides the window *)
+        assert (Ew : w1 = w2).
+        { destruct (block_types w1 0 bm1) as [|x xs] eqn:E1; [congruence|].
+          destruct (block_types w2 0 bm2) as [|y ys] eqn:E2; [congruence|].
+          cbn [app] in E. inversion E; subst. destruct Ga, La, Gb, Lb. lia. }
+        subst w2.
+        destruct (app_split_bound _ _ _ _ ((w1 + 1) * 256)
+                    ltac:(eapply all_lt_mono; [|exact La]; lia) Ra
+                    ltac:(eapply all_lt_mono; [|exact Lb]; lia) Rb E) as [E1 E2].
+        f_equal.
+        * f_equal. destruct Fa1 as (_ & (La0 & _) & Fa1 & Lna). destruct Fb1 as (_ & (Lb0 & _) & Fb1 & Lnb). cbn [fst snd] in *.
+          apply (block_types_inj w1 bm1 bm2 0%nat); auto.
+        * apply (IH b w1 w1); auto. }
+  intros a b [Ia Fa] [Ib Fb]. eapply G; eauto.
+Qed.
+
+(* hence: any well-formed encoding of the same type set IS what from_rdtypes returns *)
+Corollary from_rdtypes_is_the_encoding ts ws' :
+  Forall (fun t => 0 <= t <= 65535) ts ->
+  bitmap_wf ws' -> bitmap_types ws' = type_set ts -> from_rdtypes ts = Ok ws'.
+Proof.
+  intros H W T. destruct (from_rdtypes_exact ts H) as (ws & E & Wf & Ty). rewrite E. f_equal.
+  apply bitmap_encoding_unique; auto. congruence.
+Qed.
